@@ -44,7 +44,8 @@ type Key struct {
 // Exists reports whether the key exists.
 // Returns false for expired keys.
 func (k Key) Exists() bool {
-	return k.Key != ""
+	// the empty string is a valid key name, a stored key always has an id
+	return k.ID != 0
 }
 
 // TypeName returns the name of the key type.
